@@ -102,6 +102,16 @@ def classify_hang(trace_path):
     return None
 
 
+def _timed(fn):
+    def w(self, *a, **k):
+        t0 = time.time()
+        try:
+            return fn(self, *a, **k)
+        finally:
+            self.stats.setdefault("phase_wall_s", []).append([fn.__name__ + ":" + str(a[0] if a and isinstance(a[0], str) else ""), round(time.time() - t0, 1)])
+    return w
+
+
 class Campaign:
     def __init__(self, pid, tier, seed, own_ids=None):
         self.pid, self.tier, self.seed = pid, tier, seed
@@ -250,6 +260,7 @@ class Campaign:
         self.machinery.append(rec)
 
     # -------------------------------------------------------------- whole campaign
+    @_timed
     def run(self, models, cfgs_per_model, emphasis=None, fixed_cfgs=None):
         r = random.Random(self.seed * 1000003 + sum(map(ord, self.pid)))
         mds = vlib.pmap(lambda fm: self.prepare_model(fm[0], fm[1], fm[2] if len(fm) > 2 else "small"), models)
@@ -273,6 +284,7 @@ class Campaign:
         return results
 
     # -------------------------------------------------------------- micro-model saturation on the real code
+    @_timed
     def micro_phase(self, name, nruns, ranks=0, threads=2):
         """run the real core on a micro-model of TimeWarpMC under many schedules, keep the runs with distinct
         interleavings of the shared accesses, validate them (concatenated with Reset lines) with TimeWarpTrace"""
@@ -288,7 +300,8 @@ class Campaign:
 
         def one(i):
             c = {"threads": threads, "ckpt": r.choice([1, 2, 3, 0]), "batch": r.choice([1, 1, 2, 64]), "period": r.choice([0, 50, 100000]),
-                 "sseed": self.seed * 100000 + i, "switch": ["1/1", "1/2", "1/3", "1/5"][i % 4], "policy": [0, 0, 2, 4][i % 4 if i % 8 else 3]}
+                 "sseed": self.seed * 100000 + i, "switch": ["1/1", "1/2", "1/3", "1/5"][i % 4], "policy": [0, 0, 2, 4][i % 4 if i % 8 else 3],
+                 "budget": 250000}   # a micro-model run needs a few thousand scheduling steps; a run that hangs at shutdown is cut early
             if ranks:
                 c.update({"ranks": ranks, "net": i % 2, "batch": r.choice([1, 1, 2]), "period": r.choice([0, 0, 50])})
             tr = os.path.join(md["dir"], "mic_%d.ndjson" % i)
@@ -371,6 +384,7 @@ class Campaign:
     # -------------------------------------------------------------- behaviours of the specification replayed in the real code
     KIND = {"Push": "VP_Q_PUSH", "Drain": "VP_Q_DRAIN", "Flag": "VP_FLAG", "AntiLocal": "VP_ANTI_LOCAL", "Undo": "VP_UNDO"}
 
+    @_timed
     def replay_phase(self, name, spec, cfg, n, ranks=0, threads=2, exhaustive=False, ckpt=1, sim_num=80):
         """TLC generates behaviours of TimeWarpMC on a micro-model (all of them, or a random sample in simulation mode) as the order of the
         accesses to shared memory; each one is imposed on the real code by the cooperative scheduler (--guide): the thread whose turn it is
@@ -405,7 +419,7 @@ class Campaign:
             js = json.loads(scheds[i].replace('\\"', '"'))
             g = os.path.join(md["dir"], "guide_%d.txt" % i)
             open(g, "w").write("".join("%d %d\n" % (t, kind[k]) for t, k in js))
-            c = {"threads": threads, "ckpt": ckpt, "batch": 1, "period": 100000, "sseed": self.seed * 1000 + i, "switch": "1/2", "policy": 0}
+            c = {"threads": threads, "ckpt": ckpt, "batch": 1, "period": 100000, "sseed": self.seed * 1000 + i, "switch": "1/2", "policy": 0, "budget": 400000}
             if ranks:
                 c.update({"ranks": ranks, "net": 1})
             tr = os.path.join(md["dir"], "rep_%d.ndjson" % i)
@@ -425,6 +439,7 @@ class Campaign:
         self._validate_concat(md, [(x[0], x[1], x[2], x[3]) for x in res if x[3] in (0, 4) and os.path.exists(x[1])], "replay_" + name)
 
     # -------------------------------------------------------------- component drivers (same build)
+    @_timed
     def driver_phase(self, runs):
         """runs: [{driver, args(trace)->list, spec, cfg, label}]; results are folded into this campaign"""
         def one(run):
@@ -474,6 +489,7 @@ class Campaign:
         self.stats["driver_lines"] = self.stats.get("driver_lines", 0) + n_lines
         return n_lines
 
+    @_timed
     def mc_phase(self, spec, cfg, label, **kw):
         r = vlib.tlc(spec, cfg, extra=["-noGenerateSpecTE"], **kw)
         self.stats.setdefault("mc", []).append({"spec": spec, "cfg": cfg, "what": label, "states": r["states"], "distinct": r["distinct"],
@@ -487,6 +503,7 @@ class Campaign:
             self.machinery.append({"property": self.pid, "what": "model checking of %s/%s failed: %s" % (spec, cfg, r["error"] or "timeout")})
         return r
 
+    @_timed
     def probe_phase(self, spec, cfg, probes, **kw):
         """non-vacuity: each probe is an invariant stating that a scenario never happens; TLC must VIOLATE it (the scenario is reachable
         in the configuration that is model checked); a probe that holds means the configuration does not exercise the scenario"""
@@ -550,7 +567,7 @@ class Campaign:
                "known_finding_hits": len(self.known), "other_property_failures": len(self.other),
                "driver_lines_validated": self.stats.get("driver_lines", 0), "conformance_divergences": self.stats.get("divergences", 0),
                "model_checking_runs": self.stats.get("mc", []), "model_checking_reachability_probes": self.stats.get("mc_probes", []),
-               "tlc_behaviours_replayed_in_real_code": self.stats.get("replay", []),
+               "tlc_behaviours_replayed_in_real_code": self.stats.get("replay", []), "phase_wall_s": self.stats.get("phase_wall_s", []),
                "conformance_divergence_kinds": self.stats.get("divergence_kinds", {}),
                "micro_model_runs_on_real_code": self.stats.get("micro_runs", 0), "micro_model_distinct_interleavings": self.stats.get("micro_distinct", 0),
                "exhaustive": False}
